@@ -298,6 +298,8 @@ class Tr:
             raise Unknown("call in condition: " + str(callee))
         if k == "ImplicitCastExpr" and n.get("castKind") == "PointerToBoolean":
             return ("cmp", "KNe", self.expr(n["inner"][0]), ("null",))
+        if k == "ImplicitCastExpr" and n.get("castKind") == "IntegralToBoolean":
+            return ("cmp", "KNe", self.expr(n["inner"][0]), ("lit", 0))
         raise Unknown("condition kind " + str(k))
 
 
@@ -355,6 +357,68 @@ def translate(include, workdir):
     return progs
 
 
+def translate_range(include, workdir, compiler="clang++"):
+    """detail::check_range_doesnt_cross_app_sbx_boundary<rlbox_noop_sandbox>(const void* ptr, size_t size): check-only body"""
+    tu = os.path.join(workdir, "m3r_tu.cpp")
+    with open(tu, "w") as f:
+        f.write('#define RLBOX_USE_STATIC_CALLS() rlbox_noop_sandbox_lookup_symbol\n#define RLBOX_SINGLE_THREADED_INVOCATIONS\n'
+                '#include "rlbox_noop_sandbox.hpp"\n#include "rlbox.hpp"\n'
+                'template void rlbox::detail::check_range_doesnt_cross_app_sbx_boundary<rlbox::rlbox_noop_sandbox>(const void*, size_t);\n')
+    r = subprocess.run([compiler, "-std=c++17", "-w", "-I" + include, "-fsyntax-only", "-Xclang", "-ast-dump=json",
+                        "-Xclang", "-ast-dump-filter=rlbox::detail", tu], stdout=subprocess.PIPE, stderr=subprocess.PIPE, text=True)
+    if r.returncode != 0:
+        raise Unknown("clang failed on the range-check TU: " + r.stderr[-1500:])
+    txt, dec, docs, i = r.stdout, json.JSONDecoder(), [], 0
+    while i < len(txt):
+        while i < len(txt) and txt[i].isspace():
+            i += 1
+        if i >= len(txt):
+            break
+        d, i = dec.raw_decode(txt, i)
+        docs.append(d)
+    flat = []
+
+    def walk(d):
+        if d.get("kind") == "NamespaceDecl":
+            for c in d.get("inner", []):
+                walk(c)
+        else:
+            flat.append(d)
+    for d in docs:
+        walk(d)
+    funcs, target = {}, None
+    for d in flat:
+        cands = [c for c in d.get("inner", []) if c.get("kind") in ("FunctionDecl", "CXXMethodDecl")] if d.get("kind") == "FunctionTemplateDecl" else \
+                ([d] if d.get("kind") in ("FunctionDecl", "CXXMethodDecl") else [])
+        for c in cands:
+            if any(y.get("kind") == "CompoundStmt" for y in c.get("inner", [])):
+                funcs[c.get("id")] = c
+                if d.get("name") == "check_range_doesnt_cross_app_sbx_boundary" and any(a.get("kind") == "TemplateArgument" for a in c.get("inner", [])):
+                    target = c
+    if target is None:
+        raise Unknown("check_range_doesnt_cross_app_sbx_boundary<rlbox_noop_sandbox> not found in the AST dump")
+    params = [p for p in target["inner"] if p.get("kind") == "ParmVarDecl"]
+    if len(params) != 2:
+        raise Unknown("range check: parameter list changed")
+    t = Tr(funcs)
+    t.env[params[0]["name"]] = ("e", ("ptr",))
+    t.env[params[1]["name"]] = ("e", ("rhs",))
+    t.stmt([y for y in target["inner"] if y.get("kind") == "CompoundStmt"][0])
+    if t.done:
+        raise Unknown("range check returns a value")
+    return t.out
+
+
+def emit_range(prog):
+    stmts = ["PCheck %s" % coq_c(st[1]) for st in prog]
+    return "\n".join(["(* generated by harness/m3_ptr.py from clang's AST of detail::check_range_doesnt_cross_app_sbx_boundary — do not edit *)",
+                      "From RLBoxV Require Import PtrAst.", "Local Open Scope Z_scope.", "",
+                      "Definition rprog_check_range : list pstmt := [%s]." % "; ".join(stmts),
+                      "Lemma rprog_check_range_ok : forall l p n, in_range IULong p = true -> in_range IULong n = true ->",
+                      "  pchecks l 0 0 p n rprog_check_range = check_range code_range_guarded l p n.",
+                      "Proof. unfold rprog_check_range. range_ast_tac. Qed.", ""]) + "\n"
+
+
 SPEC = {"add": "ptr_arith l false p n stride", "sub": "ptr_arith l true p n stride", "idx": "ptr_index_gen code_index_nullcheck l p n stride"}
 
 
@@ -378,4 +442,7 @@ if __name__ == "__main__":
     import sys
     inc, work = sys.argv[1], sys.argv[2]
     os.makedirs(work, exist_ok=True)
-    print(emit(translate(inc, work)))
+    if len(sys.argv) > 3 and sys.argv[3] == "range":
+        print(emit_range(translate_range(inc, work)))
+    else:
+        print(emit(translate(inc, work)))
